@@ -1,0 +1,106 @@
+//go:build verif
+
+// Contracts for package token (file.go, token.go, quote.go), read by /verif/vcgen
+// (comment-only; adds no code).
+
+package token
+
+// ---------------------------------------------------------------------------------------------
+// Trusted contracts of external functions
+
+// strings.Split(s, "\n"): the parts are the maximal newline-free runs of s, in order.
+// uf_int_splitStart(s, k) is the offset in s of part k.
+// @ func strings.Split
+// @   trusted
+// @   modifies nothing
+// @   requires len(sep) == 1
+// @   ensures len(result) >= 1 && !isNil(result)
+// @   ensures uf_int_splitStart(s, 0) == 0
+// @   ensures forall k: 0 <= k && k < len(result) ==> 0 <= uf_int_splitStart(s, k) && uf_int_splitStart(s, k) + len(result[k]) <= len(s) && isSub(result[k], s, uf_int_splitStart(s, k), uf_int_splitStart(s, k) + len(result[k]))
+// @   ensures forall k: 0 <= k && k < len(result) - 1 ==> uf_int_splitStart(s, k + 1) == uf_int_splitStart(s, k) + len(result[k]) + 1 && s[uf_int_splitStart(s, k) + len(result[k])] == sep[0]
+// @   ensures uf_int_splitStart(s, len(result) - 1) + len(result[len(result) - 1]) == len(s)
+// @   ensures forall k: 0 <= k && k < len(result) ==> (forall j: uf_int_splitStart(s, k) <= j && j < uf_int_splitStart(s, k) + len(result[k]) ==> s[j] != sep[0])
+
+// @ func strings.Repeat
+// @   trusted
+// @   modifies nothing
+// @   requires[C03,C20] count >= 0
+
+// @ func fmt.Fprintf
+// @   trusted
+// @   modifies nothing
+
+// @ func fmt.Fprintln
+// @   trusted
+// @   modifies nothing
+
+// @ func bytes.(*Buffer).String
+// @   trusted
+// @   modifies nothing
+
+// ---------------------------------------------------------------------------------------------
+// Line table
+
+// LinesInv(f): f.lines is the table of line starts of f.Buffer, plus a final sentinel len+1:
+//   lines[0] = 0; strictly increasing; last = len(Buffer)+1;
+//   for 1 <= k < last index: Buffer[lines[k]-1] is a newline (a line starts right after a newline);
+//   no newline strictly inside a line (so line starts are exactly the positions after newlines, in order,
+//   hence the index of the line containing pos is the number of newline bytes before pos).
+// @ opaque LinesInv(lines, buf) = len(lines) >= 2 && !isNil(lines) && lines[0] == 0 && lines[len(lines) - 1] == len(buf) + 1 && (forall k: 0 <= k && k < len(lines) - 1 ==> lines[k] < lines[k + 1]) && (forall k: 1 <= k && k < len(lines) - 1 ==> buf[lines[k] - 1] == 10) && (forall k: 0 <= k && k < len(lines) - 1 ==> (forall j: lines[k] <= j && j < lines[k + 1] - 1 ==> buf[j] != 10)) && (forall k: 0 <= k && k < len(lines) ==> 0 <= lines[k] && lines[k] <= len(buf) + 1)
+// @ spec FileOK(f) = f != nil && (isNil(f.lines) || LinesInv(f.lines, f.Buffer))
+
+// @ func token.Pos.Invalid
+// @   props C20
+// @   ensures result == (p < 0)
+// @   modifies nothing
+
+// @ func token.(*File).init
+// @   props C20 C03
+// @   requires FileOK(f)
+// @   requires reveal(LinesInv(f.lines, f.Buffer))
+// @   ensures reveal(LinesInv(f.lines, f.Buffer))
+// @   ensures !isNil(old(f.lines)) ==> f.lines == old(f.lines)
+// @   ensures[C20] p1: len(f.lines) >= 2 && !isNil(f.lines) && f.lines[0] == 0 && f.lines[len(f.lines) - 1] == len(f.Buffer) + 1
+// @   ensures[C20] p2: forall k: 0 <= k && k < len(f.lines) - 1 ==> f.lines[k] < f.lines[k + 1]
+// @   ensures[C20] p3: forall k: 1 <= k && k < len(f.lines) - 1 ==> f.Buffer[f.lines[k] - 1] == 10
+// @   ensures[C20] p4: forall k: 0 <= k && k < len(f.lines) - 1 ==> (forall j: f.lines[k] <= j && j < f.lines[k + 1] - 1 ==> f.Buffer[j] != 10)
+// @   ensures[C20] p5: forall k: 0 <= k && k < len(f.lines) ==> 0 <= f.lines[k] && f.lines[k] <= len(f.Buffer) + 1
+// @   ensures[C20] LinesInv(f.lines, f.Buffer)
+// @   modifies f.lines
+// @   loop 0 invariant 0 - 1 <= rangeindex && rangeindex < len(callresult("strings.Split")) && len(lines) == rangeindex + 2 && !isNil(lines) && lines[0] == 0
+// @   loop 0 invariant rangeindex + 1 < len(callresult("strings.Split")) ==> lines[rangeindex + 1] == uf_int_splitStart(f.Buffer, rangeindex + 1)
+// @   loop 0 invariant rangeindex + 1 == len(callresult("strings.Split")) ==> lines[rangeindex + 1] == len(f.Buffer) + 1
+// @   loop 0 invariant forall k: 0 <= k && k <= rangeindex ==> lines[k] == uf_int_splitStart(f.Buffer, k) && lines[k] < lines[k + 1]
+// @   loop 0 invariant forall k: 0 <= k && k <= rangeindex ==> (forall j: lines[k] <= j && j < lines[k + 1] - 1 ==> f.Buffer[j] != 10)
+// @   loop 0 invariant forall k: 1 <= k && k <= rangeindex + 1 && k < len(callresult("strings.Split")) ==> f.Buffer[lines[k] - 1] == 10
+// @   loop 0 invariant forall k: 0 <= k && k <= rangeindex + 1 ==> 0 <= lines[k] && lines[k] <= len(f.Buffer) + 1
+// @   loop 0 decreases len(callresult("strings.Split")) - rangeindex
+
+// @ func token.(*File).ResolvePos
+// @   props C20 C03
+// @   requires FileOK(f)
+// @   requires pos <= len(f.Buffer)
+// @   ensures FileOK(f)
+// @   ensures pos < 0 ==> line == 0 - 1 && column == 0 - 1 && f.lines == old(f.lines)
+// @   ensures !isNil(old(f.lines)) ==> f.lines == old(f.lines)
+// @   ensures pos >= 0 ==> LinesInv(f.lines, f.Buffer)
+// @   ensures reveal(LinesInv(f.lines, f.Buffer))
+// @   ensures[C20] pos >= 0 ==> 0 <= line && line < len(f.lines) - 1 && f.lines[line] <= pos && pos < f.lines[line + 1] && column == pos - f.lines[line]
+// @   modifies f.lines
+// @   loop 0 invariant reveal(LinesInv(f.lines, f.Buffer))
+// @   loop 0 invariant LinesInv(f.lines, f.Buffer) && 0 - 1 <= line && line <= len(f.lines) - 1
+// @   loop 0 invariant line < len(f.lines) - 1 ==> pos < f.lines[line + 1]
+// @   loop 0 decreases line + 1
+
+// @ func token.(*File).Position
+// @   props C20 C03 C09
+// @   requires FileOK(f)
+// @   requires[C03,C09,C20] range: (pos < 0 || end < 0 || (pos <= end && end <= len(f.Buffer))) && pos <= len(f.Buffer) && end <= len(f.Buffer)
+// @   ensures FileOK(f)
+// @   ensures result != nil && fresh(result) && result.Pos == pos && result.End == end
+// @   ensures[C20] pos >= 0 ==> 0 <= result.Line && result.Line < len(f.lines) - 1 && f.lines[result.Line] <= pos && pos < f.lines[result.Line + 1] && result.Column == pos - f.lines[result.Line]
+// @   ensures[C20] end >= 0 ==> 0 <= result.EndLine && result.EndLine < len(f.lines) - 1 && f.lines[result.EndLine] <= end && end < f.lines[result.EndLine + 1] && result.EndColumn == end - f.lines[result.EndLine]
+// @   modifies f.lines
+// @   loop 0 invariant reveal(LinesInv(f.lines, f.Buffer))
+// @   loop 0 invariant LinesInv(f.lines, f.Buffer) && line <= l && l <= endLine + 1 && 0 <= line && endLine < len(f.lines) - 1
+// @   loop 0 decreases endLine + 1 - l
